@@ -363,6 +363,14 @@ class Fn:
                 fnc = t.get("func") or {}
                 info = fnc.get("fn") if fnc.get("k") == "const" else None
                 name = (info or {}).get("def") or ""
+                if not dproj and re.search(r"FromResidual>?::from_residual$|Try>?::from_output$", name):
+                    # `?` on the way out builds the failure variant of the result type, `from_output` the success variant
+                    ty = self.local_ty(d)
+                    fail = name.endswith("from_residual")
+                    if re.match(r"^(std|core)::result::Result<", ty):
+                        val = ("v", 1 if fail else 0, None)
+                    elif re.match(r"^(std|core)::option::Option<", ty):
+                        val = ("v", 0 if fail else 1, None)
                 if not dproj and re.search(r"ops::Try>?::branch$|ops::try_trait::Try::branch$", name) and t["args"]:
                     src = simple(t["args"][0])
                     if src is not None and st.get(src, (None,))[0] == "v":
@@ -1586,7 +1594,8 @@ class DB:
         # view (who-may-call questions are then asked of the callers, which now contain its code)
         from .inline import inlinable
         gone = set(g for _, g in self.inlined)
-        for gid in gone:
+        # helpers first, closures afterwards (a closure spliced into a helper that itself disappears has one owner less)
+        for gid in sorted(gone, key=lambda x: (1 if (originals.get(x) is not None and originals[x].kind == "closure") else 0, x)):
             g = originals.get(gid)
             if g is None:
                 continue
@@ -1628,7 +1637,7 @@ class DB:
                         self.fns.pop(x.id, None)
                 if g.kind == "closure":
                     # a closure spliced into its user (`for_each`): closures nested in it now belong to that body
-                    owners = [o for o, q in self.inlined if q == gid]
+                    owners = [o for o, q in self.inlined if q == gid and o in self.fns]
                     if len(set(owners)) != 1:
                         continue
                     for x in self.fns.values():
